@@ -28,6 +28,13 @@ def tasks(tier, seed):
     from .. import gen
     V = V + gen.programs(tier, seed, 120, 1500, "std") + gen.programs(tier, seed, 60, 600, "full")
     out = [dict(p, opts={}) for p in V]
+    # remove_unused on the JAX backend: every function (monitor_values too) must still return full-size, defined arrays
+    from . import c12
+    for t in c12.UNUSED:
+        out.append({"family": "UNUSED", "id": text_id(t, "jax-ru"), "text": t, "opts": {"remove_unused": True}})
+    for k, p in enumerate(o for o in list(out) if o["family"] == "GEN"):
+        if k % 6 == 0:
+            out.append(dict(p, id=p["id"] + "|ru", opts={"remove_unused": True}))
     out.append({"family": "SPLIT", "id": text_id(SPLIT), "text": SPLIT, "opts": {"split": "A"}})
     out.append({"family": "SPLIT", "id": text_id(SPLIT + "B"), "text": SPLIT, "opts": {"split": "B"}})
     from . import c13
@@ -55,6 +62,16 @@ def work(task):
     o = task.get("opts", {})
     if o.get("split"):
         return work_split(prog, m, ode, o["split"])
+    if o.get("remove_unused"):
+        vr = checks.make_view(prog, ode, "jax", label="jax|get_code|remove_unused", schemes=["explicit_euler"], remove_unused=True)
+        if vr is None:
+            return prog.result()
+        checks.check_length(prog, vr, "rhs", len(m.states), "one entry per state")
+        checks.check_length(prog, vr, "monitor_values", len(m.assigns), "one entry per monitored quantity")
+        checks.check_rhs_monitor(prog, vr, m, tag="|ru")
+        checks.check_euler(prog, vr, m, tag="|ru")
+        prog.nontrivial = True
+        return prog.result()
     schemes = ["explicit_euler", "generalized_rush_larsen"]
     view = checks.make_view(prog, ode, "jax", schemes=schemes)
     if view is None:
